@@ -1973,6 +1973,9 @@ func (w *jobctlWorld) settle(rounds int) {
 	w.c.Emit("jc.clearfaults", w.state())
 	for round := 0; round < rounds; round++ {
 		w.drain()
+		if round == 0 {
+			w.killWithoutResync()
+		}
 		if round >= 1 {
 			// periodic resync of the informers (10 min in production)
 			w.ctx.Sim().Jobs().Resync()
@@ -2010,6 +2013,42 @@ func (w *jobctlWorld) settle(rounds int) {
 	// what the last resync / clock step made due is processed before the state is judged
 	w.drain()
 	w.c.Count("jc.settle")
+}
+
+// killWithoutResync judges the fixpoint reached BEFORE the first periodic resync of a settle: since the
+// repair of F5 the controller arms a re-sync for a kill timestamp that lies in the future
+// (`C12Plan.future_kill_timer_armed`, `C12Live.kill_eventually_without_resync`), so once the kill
+// timestamp has passed, every event is delivered, the work queue is idle and no timer or rate-limited
+// retry is pending, a started Job without a live task is terminal — it does not wait for the next
+// resync (up to ten minutes late).  Seed C12w4-2 (the re-sync no longer armed when there is nothing to
+// delete: kill set during retry back-off) was visible only as a correspondence diff before.
+func (w *jobctlWorld) killWithoutResync() {
+	j := w.apiJob()
+	if j == nil || w.envelopeBroken {
+		return
+	}
+	kt := j.Spec.KillTimestamp
+	if kt == nil || kt.After(w.clk.Now()) || !jobutil.IsStarted(j) || j.DeletionTimestamp != nil {
+		return
+	}
+	w.c.Count("jc.kill-without-resync.kill-passed")
+	if w.q.Len() != 0 || w.q.NextDeadline() != 0 {
+		w.c.Count("jc.kill-without-resync.queue-or-timer-pending")
+		return
+	}
+	if cj, ok := w.ctx.Sim().Jobs().CacheGet(&execution.Job{ObjectMeta: metav1.ObjectMeta{Namespace: "ns", Name: "job"}}); !ok || cj.(*execution.Job).ResourceVersion != j.ResourceVersion {
+		w.c.Count("jc.kill-without-resync.cache-behind")
+		return // the controller has not seen the Job as it is
+	}
+	for _, p := range w.ownedPods() {
+		if podAlive(p) {
+			return
+		}
+	}
+	w.c.Count("jc.kill-without-resync.judged")
+	if !j.Status.Phase.IsTerminal() {
+		w.c.Violate("C12", "kill-eventually", "kill timestamp passed, no task alive, every event delivered, queue idle and no timer pending, but the Job is %s before any resync: no re-sync was armed for the kill timestamp", j.Status.Phase)
+	}
 }
 
 // finalMonitors judges the quiescent state reached at the end of a history.
